@@ -6,7 +6,7 @@ engine 'kani' : harness crate under kani/, compiled against /repo on every run.
 """
 
 UNITS = {
-    "F64": dict(engine="verus", template="contracts/f64.vx", props=["C01", "C11", "C05"], rlimit=150,
+    "F64": dict(engine="verus", template="contracts/f64.vx", props=["C01", "C11", "C05", "C12", "C14"], rlimit=150,
                 desc="serial u64 field backend: FieldElement51 kernels against integer arithmetic mod p"),
 }
 
